@@ -230,7 +230,13 @@ impl WalManager {
 
         let writer = self.active_writer.as_mut().unwrap();
         let op_hash = calculate_blob_hash(op_data);
-        writer.write_entry(version, op_hash, op_data)?;
+        if let Err(e) = writer.write_entry(version, op_hash, op_data) {
+            // the operation is reported as failed: make sure its entry never reaches the log
+            if let Some(failed_writer) = self.active_writer.take() {
+                failed_writer.discard_failed_entry();
+            }
+            return Err(e);
+        }
 
         Ok(WalAppendInfo { version, op_hash })
     }
